@@ -3,6 +3,8 @@ from props import *  # noqa: F401,F403
 rc_bin("c03_sched", ["harness/c03_export_bounds.cc"], lib=False, shadow=BATCH_SHADOW + READER_SHADOW + SIMPLE_SHADOW, shadow_srcs=BATCH_SHADOW_SRCS + READER_SHADOW_SRCS + SIMPLE_SHADOW_SRCS, repo_srcs=BATCH_PLAIN)
 rc_bin("c03_thr", ["harness/batch_thr.cc"], lib=True, defines=['VH_PROP_ID=\\"C03\\"'])
 rc_bin("c03_thr_tsan", ["harness/batch_thr.cc"], lib=True, san="tsan", defines=['VH_PROP_ID=\\"C03\\"'])
+rc_bin("c03_simple_thr", ["harness/c03_simple_thr.cc"], lib=True)
+rc_bin("c03_simple_thr_tsan", ["harness/c03_simple_thr.cc"], lib=True, san="tsan")
 PROPS["C03"] = dict(
     level_text="Same schedule-controlled engine: the exporter keeps an in-flight counter (never above 1 per exporter instance, with a yield/virtual sleep inside Export to invite overlap) and every delivered batch must hold 1..max_export_batch_size records, including histories with a ForceFlush before later production and the shutdown drain path.",
     technique="generated schedules (weighted/uniform/PCT) over a deterministic scheduler shim (rapidcheck choice streams) + history-invariant oracle + simple processors and periodic reader under the same shim + real-thread stress under ASan and TSan",
@@ -17,5 +19,9 @@ PROPS["C03"] = dict(
         run("blp-threads", "c03_thr", "blp_threads", "rc", dict(procs=1, cases=150), dict(procs=3, cases=3000), deterministic=False),
         run("simple", "c03_sched", "simple_sched", "rc", dict(procs=3, cases=8000), dict(procs=4, cases=60000), asan_extra=SCHED_ASAN),
         run("reader", "c03_sched", "reader_sched", "rc", dict(procs=4, cases=6000), dict(procs=6, cases=50000), asan_extra=SCHED_ASAN),
+        run("simple-span-threads-tsan", "c03_simple_thr_tsan", "simple_span_threads", "rc", dict(procs=1, cases=60), dict(procs=2, cases=1500), deterministic=False, replay_bin="c03_simple_thr_tsan"),
+        run("simple-log-threads-tsan", "c03_simple_thr_tsan", "simple_log_threads", "rc", dict(procs=1, cases=60), dict(procs=2, cases=1500), deterministic=False, replay_bin="c03_simple_thr_tsan"),
+        run("simple-span-threads", "c03_simple_thr", "simple_span_threads", "rc", dict(procs=1, cases=60), dict(procs=2, cases=1500), deterministic=False),
+        run("simple-log-threads", "c03_simple_thr", "simple_log_threads", "rc", dict(procs=1, cases=60), dict(procs=2, cases=1500), deterministic=False),
     ],
 )
